@@ -200,17 +200,30 @@ def run(ctx):
                "loaded_rows": (lo, hi)}, sub)
     # pass 1 / pass 2 statistic stores
     stat = []
+    calls_of = {}
     for n, s in g.stmt.items():
-        if g.kind[n] == "stmt" and isinstance(s, ast.Assign) and \
-                isinstance(s.value, ast.Call) and \
+        if g.kind[n] != "stmt" or not isinstance(s, ast.Assign):
+            continue
+        if isinstance(s.value, ast.Call) and \
                 norm(s.value.func) == clip.name and \
                 isinstance(s.targets[0], ast.Tuple):
+            # mean, _ = sigmaclip(...)
             which = [i for i, e in enumerate(s.targets[0].elts)
                      if norm(e) != "_"]
             stat.append((n, s, which))
+            calls_of[n] = s.value
+        elif isinstance(s.value, ast.Subscript) and \
+                isinstance(s.value.value, ast.Call) and \
+                norm(s.value.value.func) == clip.name and \
+                isinstance(s.value.slice, ast.Constant) and \
+                isinstance(s.value.slice.value, int):
+            # vals[i, j] = sigmaclip(...)[k]
+            stat.append((n, s, [s.value.slice.value % 2]))
+            calls_of[n] = s.value.value
     if len(stat) != 2:
         raise AnalysisError("C06-R1: expected two sigmaclip call sites")
-    stat.sort(key=lambda t: t[1].lineno)
+    # order of execution: the one that can run before the subtraction first
+    stat.sort(key=lambda t: (g.dominates(sn, t[0]), t[1].lineno))
     (n1, s1, w1), (n2, s2, w2) = stat
     ctx.check("C06-R1", sfn, "pass 1 keeps the mean: " + norm(s1), w1 == [0]
               and g.path_avoiding(ENTRY, n1, [sn]) is not None and
@@ -227,8 +240,8 @@ def run(ctx):
     # ---------------------------------------------------------------- R2
     ctx.rule("C06-R2", "clipping: same routine, lo == hi, equal in both "
              "passes; returns (mean, std) of the clipped finite sample")
-    a1 = [norm(a) for a in s1.value.args[1:3]]
-    a2 = [norm(a) for a in s2.value.args[1:3]]
+    a1 = [norm(a) for a in calls_of[n1].args[1:3]]
+    a2 = [norm(a) for a in calls_of[n2].args[1:3]]
     ctx.check("C06-R2", sfn, "clip levels pass1=%s pass2=%s" % (a1, a2),
               a1 == a2 and len(a1) == 2 and a1[0] == a1[1],
               "both passes must clip symmetrically at the same level",
@@ -289,13 +302,74 @@ def run(ctx):
                                             ["np.nan", "np.nan"])
         for s in ret), "sigmaclip must return (mean, std)",
         node=ret[0] if ret else clip.node)
-    msk = [s for s in walk_no_nested(clip.node) if isinstance(s, ast.Assign)
-           and norm(s.targets[0]) == "mask"]
-    okm = len(msk) == 1 and norm(msk[0].value).replace(" ", "") == \
-        "(%s>mean-std*lo)&(%s<mean+std*hi)" % (cname, cname)
+    # the selection  clipped[<window>]  inside the loop: the window is the
+    # conjunction of  v > mean - lo*std  and  v < mean + hi*std  (symbolic
+    # comparison; the bounds and the mask may or may not be named)
+    import sympy as sp
+    from .. import sym as _sym
+    from .c08 import _resolve_local as _rl
+    sel = []
+    for s_ in walk_no_nested(clip.node):
+        if isinstance(s_, ast.Assign) and norm(s_.targets[0]) == cname and \
+                isinstance(s_.value, ast.Subscript) and \
+                norm(s_.value.value) == cname:
+            sel.append(s_)
+    okm = False
+    why = "selection %s[...] not found" % cname
+    if len(sel) == 1:
+        w = sel[0].value.slice
+        for _ in range(3):
+            if isinstance(w, ast.Name):
+                w = _rl(clip.node, w)
+        parts = None
+        if isinstance(w, ast.BinOp) and isinstance(w.op, ast.BitAnd):
+            parts = [w.left, w.right]
+        elif isinstance(w, ast.Call) and norm(w.func) in (
+                "np.logical_and", "numpy.logical_and") and len(w.args) == 2:
+            parts = list(w.args)
+        lo_b = hi_b = None
+        strict = True
+        if parts and all(isinstance(p_, ast.Compare) and len(p_.ops) == 1
+                         for p_ in parts):
+            for p_ in parts:
+                l_, op, r_ = p_.left, p_.ops[0], p_.comparators[0]
+                if norm(r_) == cname:        # bound OP v  ->  v OP' bound
+                    l_, r_ = r_, l_
+                    op = {ast.Lt: ast.Gt, ast.Gt: ast.Lt, ast.LtE: ast.GtE,
+                          ast.GtE: ast.LtE}.get(type(op), type(op))()
+                if norm(l_) != cname:
+                    continue
+                if isinstance(op, (ast.Gt, ast.GtE)):
+                    lo_b = r_
+                elif isinstance(op, (ast.Lt, ast.LtE)):
+                    hi_b = r_
+                if isinstance(op, (ast.GtE, ast.LtE)):
+                    strict = False
+        if lo_b is not None and hi_b is not None:
+            M, S, LO, HI = sp.symbols("mean std lo hi", real=True)
+            tr = _sym.Translator(prog, prog.modules[clip.module],
+                                 {"mean": M, "std": S, "lo": LO, "hi": HI},
+                                 free_symbols=True)
+            try:
+                def tx(e):
+                    for _ in range(3):
+                        if isinstance(e, ast.Name) and e.id not in tr.env:
+                            e = _rl(clip.node, e)
+                    return tr.expr(e)
+                dl = sp.simplify(tx(lo_b) - (M - LO * S))
+                dh = sp.simplify(tx(hi_b) - (M + HI * S))
+                okm = dl == 0 and dh == 0 and strict
+                why = "lower bound %s, upper bound %s%s" % (
+                    norm(lo_b), norm(hi_b), "" if strict else
+                    " (non-strict comparison)")
+            except _sym.Untranslatable as e:
+                why = "bounds not translatable: %s" % e
+        else:
+            why = "window %s is not a conjunction of a lower and an upper " \
+                "comparison of %s" % (norm(w, 80), cname)
     ctx.check("C06-R2", clip, "clip window", okm,
-              "values are kept iff mean - lo*std < v < mean + hi*std",
-              node=msk[0] if msk else clip.node)
+              "values are kept iff mean - lo*std < v < mean + hi*std; " + why,
+              node=sel[0] if sel else clip.node)
     # ---------------------------------------------------------------- R3
     ctx.rule("C06-R3", "BSCALE applied once on load, divided out once per "
              "map on write")
@@ -392,40 +466,57 @@ def run(ctx):
              "outputs have shape (NAXIS2, NAXIS1)")
     rdef = [s for s in walk_no_nested(sfn.node) if isinstance(s, ast.Assign)
             and norm(s.targets[0]) in ("rows", "cols")]
-    apps = {norm(c.func.value): norm(c.args[0]).replace(" ", "")
-            for c in walk_no_nested(sfn.node) if isinstance(c, ast.Call) and
-            isinstance(c.func, ast.Attribute) and c.func.attr == "append" and
-            norm(c.func.value) in ("rows", "cols") and c.args}
-    d = {norm(s.targets[0]): norm(s.value).replace(" ", "") for s in rdef}
+
+    def node_list(name):
+        """(start, stop, step, last) of  list(range(start, stop, step))
+        followed by .append(last), or  list(range(...)) + [last]"""
+        dfs = [s for s in rdef if norm(s.targets[0]) == name]
+        if len(dfs) != 1:
+            return None
+        v = dfs[0].value
+        last = None
+        if isinstance(v, ast.BinOp) and isinstance(v.op, ast.Add) and \
+                isinstance(v.right, ast.List) and len(v.right.elts) == 1:
+            last = v.right.elts[0]
+            v = v.left
+        if isinstance(v, ast.Call) and norm(v.func) == "list" and v.args:
+            v = v.args[0]
+        if not (isinstance(v, ast.Call) and norm(v.func) == "range" and
+                len(v.args) == 3):
+            return None
+        ap = [c for c in walk_no_nested(sfn.node) if isinstance(c, ast.Call)
+              and isinstance(c.func, ast.Attribute) and
+              c.func.attr == "append" and norm(c.func.value) == name and
+              c.args]
+        if last is None and len(ap) == 1:
+            last = ap[0].args[0]
+        elif ap:
+            return None
+        if last is None:
+            return None
+        return v.args[0], v.args[1], v.args[2], last
     import sympy as sp
     Y0, Y1, L, H = sp.symbols("ymin ymax row_lo row_hi", integer=True)
     okr = False
-    rd_ = [s for s in rdef if norm(s.targets[0]) == "rows"]
-    ap_ = [c for c in walk_no_nested(sfn.node) if isinstance(c, ast.Call) and
-           isinstance(c.func, ast.Attribute) and c.func.attr == "append" and
-           norm(c.func.value) == "rows" and c.args]
-    if len(rd_) == 1 and len(ap_) == 1:
-        v = rd_[0].value
-        if isinstance(v, ast.Call) and norm(v.func) == "list" and v.args:
-            v = v.args[0]
-        if isinstance(v, ast.Call) and norm(v.func) == "range" and \
-                len(v.args) == 3:
-            a = _lin(prog, mod, v.args[0], own, lo, hi)
-            b = _lin(prog, mod, v.args[1], own, lo, hi)
-            c = _lin(prog, mod, ap_[0].args[0], own, lo, hi)
-            okr = None not in (a, b, c) and sp.expand(a - (Y0 - L)) == 0 \
-                and sp.expand(b - (Y1 - L)) == 0 and \
-                sp.expand(c - (Y1 - L)) == 0 and \
-                norm(v.args[2]) == "step_size[0]"
-    okc = d.get("cols") == "list(range(0,shape[1],step_size[1]))" and \
-        apps.get("cols") == "shape[1]"
-    ctx.check("C06-R5", sfn, "row nodes %s + [%s]" % (d.get("rows"),
-                                                      apps.get("rows")), okr,
+    rn = node_list("rows")
+    if rn is not None:
+        a = _lin(prog, mod, rn[0], own, lo, hi)
+        b = _lin(prog, mod, rn[1], own, lo, hi)
+        c = _lin(prog, mod, rn[3], own, lo, hi)
+        okr = None not in (a, b, c) and sp.expand(a - (Y0 - L)) == 0 \
+            and sp.expand(b - (Y1 - L)) == 0 and \
+            sp.expand(c - (Y1 - L)) == 0 and \
+            norm(rn[2]) == "step_size[0]"
+    cn = node_list("cols")
+    okc = cn is not None and [norm(x).replace(" ", "") for x in cn] == [
+        "0", "shape[1]", "step_size[1]", "shape[1]"]
+    ctx.check("C06-R5", sfn, "row nodes %s" %
+              ([norm(x) for x in rn] if rn else None), okr,
               "row nodes must start at the first own row and end with the "
               "node %s-%s so that every own row lies inside the hull" %
               (own[1], lo), node=rdef[0] if rdef else sfn.node)
-    ctx.check("C06-R5", sfn, "column nodes %s + [%s]" % (d.get("cols"),
-                                                         apps.get("cols")),
+    ctx.check("C06-R5", sfn, "column nodes %s" %
+              ([norm(x) for x in cn] if cn else None),
               okc, "column nodes must span 0..shape[1]",
               node=rdef[-1] if rdef else sfn.node)
     grid = [s for s in walk_no_nested(sfn.node) if isinstance(s, ast.Assign)
